@@ -121,6 +121,28 @@ func writeAndRead(c *c07Case, work string) (out c07Out) {
 	case "dbmate":
 		f = sqltool.DBMateFormatter
 	}
+	if c.Formatter == "atlas-checkpoint" {
+		// the plan written as a checkpoint file (Planner.WriteCheckpoint adds the atlas:checkpoint directive)
+		md := &migrate.MemDir{}
+		if err := migrate.NewPlanner(nil, md, migrate.PlanWithChecksum(false)).WriteCheckpoint(plan, ""); err != nil {
+			return c07Out{Err: "format"}
+		}
+		fs, ferr := md.Files()
+		if ferr != nil || len(fs) != 1 {
+			return c07Out{Err: fmt.Sprintf("read-dir:%v n=%d", ferr, len(fs))}
+		}
+		out.File = hex.EncodeToString(fs[0].Bytes())
+		stmts, err := migrate.FileStmts(drv, fs[0])
+		if err != nil {
+			out.Err = "scan"
+			return out
+		}
+		out.Stmts = []string{}
+		for _, s := range stmts {
+			out.Stmts = append(out.Stmts, hexS(s))
+		}
+		return out
+	}
 	files, err := f.Format(plan)
 	if err != nil {
 		return c07Out{Err: "format"}
@@ -215,9 +237,9 @@ func c07Monitor(c *c07Case, o c07Out) (bool, string, string) {
 			return "goose-line-oriented-reader"
 		case enumQuote:
 			return "mysql-enum-value-with-quote"
-		case backslash && c.Formatter != "atlas":
+		case backslash && c.Formatter != "atlas" && c.Formatter != "atlas-checkpoint":
 			return "mysql-backslash-escapes-in-third-party-dir"
-		case estring && c.Formatter != "atlas":
+		case estring && c.Formatter != "atlas" && c.Formatter != "atlas-checkpoint":
 			return "postgres-escape-string-in-third-party-dir"
 		}
 		return sig
@@ -232,7 +254,7 @@ func c07Monitor(c *c07Case, o c07Out) (bool, string, string) {
 		b, _ := hex.DecodeString(o.Stmts[i])
 		got := string(b)
 		want := ch.Cmd
-		if c.Formatter != "atlas" || c.Delimiter == "" {
+		if c.Formatter != "atlas" && c.Formatter != "atlas-checkpoint" || c.Delimiter == "" {
 			want += ";" // the default delimiter stays part of the statement text
 		}
 		if got != want {
@@ -274,8 +296,8 @@ func genC07(r *hx.Rand, thorough bool) *c07Case {
 		}
 		c.Changes = append(c.Changes, c07Change{Cmd: ch.Cmd, Comment: ch.Comment, Reverse: rv})
 	}
-	c.Formatter = hx.Pick(r, []string{"atlas", "atlas", "atlas", "golang-migrate", "goose", "flyway", "liquibase", "dbmate"})
-	if c.Formatter == "atlas" && r.Chance(1, 2) {
+	c.Formatter = hx.Pick(r, []string{"atlas", "atlas", "atlas", "atlas-checkpoint", "golang-migrate", "goose", "flyway", "liquibase", "dbmate"})
+	if (c.Formatter == "atlas" || c.Formatter == "atlas-checkpoint") && r.Chance(1, 2) {
 		c.Delimiter = hx.Pick(r, []string{"\n\n\n", "//", "$$", ";;", "\n-- end\n", "GO", "|", "\\g", "\n\\g", "\\\\", "\\;"})
 	}
 	_ = schema.Schema{}
